@@ -230,32 +230,55 @@ class Faults(object):
         return self.fail_at is not None and self.count == self.fail_at
 
     def __enter__(self):
+        """patches, for the duration of one request, every way the static code can reach the filesystem: os.path.isfile /
+        exists / getmtime / getsize, os.stat / os.fstat, the module-level aliases of those that clastic.static holds
+        (whatever they are called), and open() as seen from clastic.static.  Calls made from inside another wrapped
+        call are not counted again."""
         cs = self.cs
-        self.saved = (cs.isfile, os.path.getmtime, os.path.getsize, cs.__dict__.get('open'))
-        o_isfile, o_mtime, o_size = cs.isfile, os.path.getmtime, os.path.getsize
         me = self
+        me.depth = 0
+        self.undo = []
 
-        def isfile(p):
-            if me.tick('isfile', p):
-                return False
-            return o_isfile(p)
+        def wrap(orig, name, on_fault):
+            def w(*a, **kw):
+                if me.depth:
+                    return orig(*a, **kw)
+                hit = me.tick(name, a[0] if a else None)
+                if hit:
+                    return on_fault(a[0] if a else None)
+                me.depth += 1
+                try:
+                    return orig(*a, **kw)
+                finally:
+                    me.depth -= 1
+            w._zq_orig = orig
+            return w
 
-        def getmtime(p):
-            if me.tick('getmtime', p):
-                raise OSError(me.err, os.strerror(me.err), p)
-            return o_mtime(p)
-
-        def getsize(p):
-            if me.tick('getsize', p):
-                raise OSError(me.err, os.strerror(me.err), p)
-            return o_size(p)
+        def raiser(p):
+            raise OSError(me.err, os.strerror(me.err), p)
+        targets = [(os.path, 'isfile', lambda p: False), (os.path, 'exists', lambda p: False), (os.path, 'getmtime', raiser),
+                   (os.path, 'getsize', raiser), (os, 'stat', raiser), (os, 'fstat', raiser)]
+        originals = {}
+        for mod, name, on_fault in targets:
+            orig = getattr(mod, name)
+            w = wrap(orig, name, on_fault)
+            originals[orig] = w
+            setattr(mod, name, w)
+            self.undo.append((mod, name, orig))
+        for k, v in list(cs.__dict__.items()):
+            try:
+                if v in originals:
+                    setattr(cs, k, originals[v])
+                    self.undo.append((cs, k, v))
+            except TypeError:
+                pass
 
         class FObj(object):
             def __init__(s, f):
                 s.f = f
 
             def read(s, *a):
-                if not me.streaming and me.tick('read', getattr(s.f, 'name', None)):
+                if not me.streaming and not me.depth and me.tick('read', getattr(s.f, 'name', None)):
                     raise OSError(me.err, os.strerror(me.err))
                 return s.f.read(*a)
 
@@ -266,20 +289,26 @@ class Faults(object):
                 return getattr(s.f, k)
 
         def fopen(p, *a, **kw):
-            if me.tick('open', p):
+            if not me.depth and me.tick('open', p):
                 raise OSError(me.err, os.strerror(me.err), p)
-            return FObj(builtins.open(p, *a, **kw))
+            me.depth += 1
+            try:
+                return FObj(builtins.open(p, *a, **kw))
+            finally:
+                me.depth -= 1
+        self.had_open = cs.__dict__.get('open')
+        cs.open = fopen
         self.streaming = False
-        cs.isfile, os.path.getmtime, os.path.getsize, cs.open = isfile, getmtime, getsize, fopen
         return self
 
     def __exit__(self, *a):
         cs = self.cs
-        cs.isfile, os.path.getmtime, os.path.getsize = self.saved[:3]
-        if self.saved[3] is None:
+        for mod, name, orig in reversed(self.undo):
+            setattr(mod, name, orig)
+        if self.had_open is None:
             del cs.open
         else:
-            cs.open = self.saved[3]
+            cs.open = self.had_open
 
 
 def call_with_faults(app, path, faults, headers=None):
@@ -329,6 +358,8 @@ def run_faults(spec, ctx):
                         ncalls = f.count
                         calls = list(f.log)
                         cpaths = list(f.paths)
+                    if ncalls == 0:
+                        ctx.note('no filesystem call observed while serving %s: fault injection found nothing to fail (refactor?)' % path)
                     if r0.exc is not None or r0.status not in (200, 304):
                         try:
                             ctx.mismatch('file-not-served', 'GET %r without any fault answered %s %r' % (path, r0.status, r0.exc),
